@@ -60,6 +60,10 @@ def make_inputs(wd, tier):
     crasher = os.path.join(REPO, "tests", "constant", "rule_017_test_input.vhd")
     if os.path.exists(crasher):
         out["crasher"] = crasher
+    cfg = os.path.join(d, "no_ws001.yaml")
+    with open(cfg, "w") as f:
+        f.write("rule:\n  whitespace_001:\n    disable: true\n")
+    out["no_ws001"] = cfg
     return out
 
 
@@ -67,10 +71,10 @@ def scenarios(inputs, tier):
     scs = []
     sid = [0]
 
-    def add(src, mode, umask, backup, stale, args, expand=False, clean=False, kind="", transform=None, jobs=1):
+    def add(src, mode, umask, backup, stale, args, expand=False, clean=False, kind="", transform=None, jobs=1, hardlink=False):
         sid[0] += 1
         scs.append({"id": sid[0] * 100000, "src": src, "mode": mode, "umask": umask, "backup": backup, "stale": stale, "args": args + (["--backup"] if backup else []),
-                    "expand": expand, "clean": clean, "kind": kind, "transform": transform, "jobs": jobs})
+                    "expand": expand, "clean": clean, "kind": kind, "transform": transform, "jobs": jobs, "hardlink": hardlink})
 
     s = inputs["small"]
     add(s, 0o664, 0o022, False, 0, ["--fix"], expand=True, kind="base")
@@ -83,6 +87,9 @@ def scenarios(inputs, tier):
     add(s, 0o664, 0o022, False, 0, ["--fix", "--fix_phase", "3"], expand=False, kind="fix_phase3")
     # the write-back happens in a pool worker when several jobs are asked for
     add(s, 0o664, 0o022, True, 0o600, ["--fix"], expand=(tier == "thorough"), kind="jobs2", jobs=2)
+    # the file has a second name (hard link): the protocol is the same, the other name keeps the original
+    add(s, 0o664, 0o022, False, 0, ["--fix"], expand=True, kind="hardlink", hardlink=True)
+    add(inputs["big"], 0o640, 0o022, True, 0, ["--fix"], expand=(tier == "thorough"), kind="hardlink+big", hardlink=True)
     # nothing to write: the target must see no mutating call at all
     add(s, 0o664, 0o022, False, 0, [], clean=True, kind="check-only")
     add(s, 0o664, 0o022, False, 0, ["-ap", "-of", "syntastic"], clean=True, kind="check-only")
@@ -91,6 +98,9 @@ def scenarios(inputs, tier):
         add(inputs["fixedpoint"], 0o600, 0o022, True, 0, ["--fix"], clean=False, kind="fixedpoint+backup")
         add(inputs["fixedpoint"], 0o664, 0o022, False, 0, ["--fix"], clean=True, kind="fixedpoint-crlf", transform="crlf")
         add(inputs["fixedpoint"], 0o664, 0o022, False, 0, ["--fix"], clean=True, kind="fixedpoint-nofinalnl", transform="nofinalnl")
+        # trailing blanks that no enabled rule reports (rule disabled / inside a code-tag region): still nothing to fix
+        add(inputs["fixedpoint"], 0o664, 0o022, False, 0, ["--fix", "-c", inputs["no_ws001"]], clean=True, kind="fixedpoint-trailws-disabled", transform="trailws")
+        add(inputs["fixedpoint"], 0o664, 0o022, False, 0, ["--fix"], clean=True, kind="fixedpoint-trailws-tagged", transform="trailws_tagged")
     add(inputs["rejected"], 0o664, 0o022, False, 0, ["--fix"], clean=True, kind="rejected")
     add(inputs["rejected"], 0o664, 0o022, False, 0o600, ["--fix"], clean=True, kind="rejected+stale")
     if "crasher" in inputs:
@@ -220,6 +230,11 @@ def check(prop, tier):
     if st["tlc_errors"] or st["unfinished"] or bad or st["machinery"] or mach:
         common.machinery("wb: tlc=%s unfinished=%s design=%s machinery=%s binding=%s" % (st["tlc_errors"][:2], st["unfinished"][:3], bad, st["machinery"], [(f["clause"], f["input"], f["config"]) for f in mach[:3]]))
     mine = [f for f in r["findings"] if f["property"] == prop]
+    # "a file that fails to parse or configure is never modified", on multi-file / multi-job invocations (spec/Main.tla)
+    import batchfam
+
+    bf, binfo = batchfam.extra_findings(prop, tier)
+    mine += bf
     known_hits, new = F.split_known(mine, prop)
     rc = common.report(prop, known_hits, new, lambda f: F.write_replay(prop, f))
     cov = {
@@ -232,6 +247,7 @@ def check(prop, tier):
         "transitions": sum(d["states"] for d in r["design"]) + st["tlc_states"],
         "traces_validated_against_impl": st["runs"],
         "design_models": r["design"],
+        "command_line_model": binfo,
         "runs_with_mutating_calls": st["with_mutating_calls"],
         "runs_faulted": st["faulted"],
         "runs_killed": st["killed"],
